@@ -513,19 +513,17 @@ async fn read_op(ctx: &ConnCtx, r: &mut Reader, i: &str, op: &Op) -> Outcome {
             }
             "recv_eof" => {
                 // read until EOF or error; report how much came
-                let mut got: Vec<u8> = r.buf.drain(..).collect();
-                let mut total = got.len();
+                // (what is kept stays in r.buf, so that a timeout still reports what had arrived by then)
+                let mut total = r.buf.len();
+                r.buf.truncate(keep);
                 loop {
                     match r.fill().await {
-                        Ok(0) => return (format!("eof@{}", total), got),
+                        Ok(0) => return (format!("eof@{}", total), r.buf.drain(..).collect()),
                         Ok(n) => {
                             total += n;
-                            let room = keep.saturating_sub(got.len());
-                            let take = room.min(r.buf.len());
-                            got.extend_from_slice(&r.buf[..take]);
-                            r.buf.clear();
+                            r.buf.truncate(keep);
                         }
-                        Err(e) => return (format!("{}@{}", io_res(&e), total), got),
+                        Err(e) => return (format!("{}@{}", io_res(&e), total), r.buf.drain(..).collect()),
                     }
                 }
             }
